@@ -1,5 +1,6 @@
 import TarsModel.Proofs.EvolveEnc
 import TarsModel.Proofs.SchemaRT3
+import TarsModel.Proofs.SchemaFuel
 
 /-! Bridge from the C03 member round trip (`rt_all`, Proofs/SchemaRT3.lean) to the per-member
     assumptions of the C04 slot theorems: the `encVar` of a well-typed value is `HeadOk` and
@@ -54,6 +55,56 @@ theorem encSlots_ok (env : Env) (rk : String → Nat) (hE : EnvWF env rk) (N : N
   | [], [], _ :: _, h => by simp [MembersOK] at h
   | _ :: _, [], _, h => by simp [MembersOK] at h
   | _ :: _, _ :: _, [], h => by simp [MembersOK] at h
+
+/-- member-wise typing of schema, value and target, without a fuel bound -/
+def MembersTyped (env : Env) (rk : String → Nat) : List Field → List Val → List Val → Prop
+  | f :: fs, o :: os, v :: vs =>
+    (f.tag < 256 ∧ TyOK env rk (env.length + 1) f.ty ∧ DfltOK f.ty f.dflt ∧ WT env f.ty v ∧
+      OldOK env f.ty f.dflt o) ∧ MembersTyped env rk fs os vs
+  | [], [], [] => True
+  | _, _, _ => False
+
+theorem needVar_le_needElems : ∀ (vs : List Val) (v : Val), v ∈ vs → needVar v ≤ needElems vs
+  | [], _, h => by cases h
+  | w :: ws, v, h => by
+    simp only [needElems]
+    rcases List.mem_cons.mp h with rfl | h
+    · omega
+    · have := needVar_le_needElems ws v h; omega
+
+theorem membersOK_of_typed (env : Env) (rk : String → Nat) (N : Nat) :
+    ∀ (fs : List Field) (os vs : List Val), (∀ v ∈ vs, needVar v ≤ N) →
+      MembersTyped env rk fs os vs → MembersOK env rk N fs os vs
+  | [], [], [], _, _ => trivial
+  | f :: fs, o :: os, v :: vs, hN, h => by
+    obtain ⟨⟨h1, h2, h3, h4, h5⟩, hrest⟩ := h
+    exact ⟨⟨h1, h2, h3, h4, h5, hN v (by simp)⟩,
+      membersOK_of_typed env rk N fs os vs (fun w hw => hN w (by simp [hw])) hrest⟩
+  | [], _ :: _, _, _, h => by simp [MembersTyped] at h
+  | [], [], _ :: _, _, h => by simp [MembersTyped] at h
+  | _ :: _, [], _, _, h => by simp [MembersTyped] at h
+  | _ :: _, _ :: _, [], _, h => by simp [MembersTyped] at h
+
+theorem membersTyped_WTm (env : Env) (rk : String → Nat) :
+    ∀ (fs : List Field) (os vs : List Val), MembersTyped env rk fs os vs → WTm env fs vs
+  | [], [], [], _ => by simp [WTm]
+  | f :: fs, o :: os, v :: vs, h => by
+    simp only [WTm]
+    exact ⟨h.1.2.2.2.1, membersTyped_WTm env rk fs os vs h.2⟩
+  | [], _ :: _, _, h => by simp [MembersTyped] at h
+  | [], [], _ :: _, h => by simp [MembersTyped] at h
+  | _ :: _, [], _, h => by simp [MembersTyped] at h
+  | _ :: _, _ :: _, [], h => by simp [MembersTyped] at h
+
+/-- the message with the unknown fields is at least as long as the one without -/
+theorem merged_length_ge (items : List (List WFField × Slot)) (tail : List WFField) :
+    (merged (strip items) []).length ≤ (merged items tail).length := by
+  induction items with
+  | nil => simp [strip, merged, renderList]
+  | cons p rest ih =>
+    obtain ⟨xs, s⟩ := p
+    simp only [strip, List.map_cons, merged, renderList, List.nil_append, List.length_append] at ih ⊢
+    omega
 
 /-- a well-formed schema in the sense of C03 (`EnvWF`: ranked by-value nesting) is acyclic in the
     sense of C04 -/
